@@ -194,7 +194,7 @@ def run_layout(ctx, case, bvu):
                 # the same section, its header followed by a comment (valid TOML, and accepted by configparser)
                 # (without a file_patterns table: the pattern for the own current_version line is left to bumpver)
                 head, rest = sec.split("\n\n")[0].split("\n", 1)
-                sec = head + "  # release config\n" + rest + "\n"
+                sec = head + "  # release config [see docs]\n" + rest + "\n"
                 ctx.count("existing_section_with_comment_after_header")
             files[fn] = UNRELATED[fn] + "\n" + sec if fn != ".bumpver.toml" else sec
             sections.append(fn)
